@@ -3,6 +3,11 @@
  * index is undefined behaviour in the real code and a failed obligation here). */
 #ifndef VERIF_VEC_H
 #define VERIF_VEC_H
+#ifdef VEC_NO_INDEX_ASSERT
+#define VEC_INDEX_ASSERT(c) ((void)0)
+#else
+#define VEC_INDEX_ASSERT(c) __CPROVER_assert(c, "vector index in range")
+#endif
 #define DEFINE_VEC(T, NAME) \
   struct NAME { T *d; size_t n; size_t c; }; \
   static inline struct NAME *NAME##__ctor0(struct NAME *v) { v->d = 0; v->n = 0; v->c = 0; return v; } \
@@ -11,7 +16,7 @@
       for (size_t i = 0; i < v->n; i++) nd[i] = v->d[i]; free(v->d); v->d = nd; v->c = nc; } \
     v->d[v->n++] = x; } \
   static inline size_t NAME##__size(struct NAME *v) { return v->n; } \
-  static inline T *NAME##__at(struct NAME *v, size_t i) { __CPROVER_assert(i < v->n, "vector index in range"); return &v->d[i]; } \
+  static inline T *NAME##__at(struct NAME *v, size_t i) { VEC_INDEX_ASSERT(i < v->n); return &v->d[i]; } \
   static inline void NAME##__clear(struct NAME *v) { v->n = 0; } \
   static inline void NAME##__dtor(struct NAME *v) { free(v->d); }
 #endif
